@@ -4,6 +4,8 @@
         <gp> <gf> <gqa> <onorm|-> <out|-> <temb|-> <ngroups> {lib <ngpus> {free min}*}*
       -> fit=<0|1>,<vram> | <estimate of group 1> | <estimate of group 2> ...
     where <estimate> = L=.. G=.. V=.. T=.. S=<a,b,..|-> Z=<a,b,..|-> kv=.. mw=.. mo=.. gf=.. gp=.. pw=.. pg=..
+    c16free <ngpus> {key idk total free}* <nrunners> {nil | <n> {idk est}*}*
+      -> f1,f2,...   (FreeMemory of every GPU after Scheduler.updateFreeSpace)
 -/
 import OllamaVerif.Model.Memory
 import Oracle.Util
@@ -44,6 +46,22 @@ def pBlock : TP (Option Nat × Nat) := do
   let kv ← nat
   pure (w, kv)
 
+def pSGpu : TP SGpu := do
+  let k ← nat
+  let i ← nat
+  let t ← nat
+  let f ← nat
+  pure ⟨k, i, t, f⟩
+
+def pRunner : TP Runner := do
+  let t ← tok
+  if t == "nil" then pure none
+  else match t.toNat? with
+    | some n => do
+      let l ← rep n pPair
+      pure (some l)
+    | none => failure
+
 def commaOrDash (l : List Nat) : String :=
   if l.isEmpty then "-" else joinWith "," (l.map toString)
 
@@ -81,6 +99,11 @@ def handle (toks : List String) : Option String :=
       let ests := groups.map fun (l, gs) => showEst (estimate { common with lib := l, gpus := gs })
       let f := if fit.1 then "1" else "0"
       pure (joinWith " | " (s!"fit={f},{fit.2}" :: ests))) rest
+  | "c16free" :: rest =>
+    runTP (do
+      let gpus ← listOf pSGpu
+      let runners ← listOf pRunner
+      pure (commaOrDash (updateFree gpus runners))) rest
   | _ => none
 
 end Oracle.C16
